@@ -296,13 +296,17 @@ fn issue_doc(
     let (kty, crv, len, sig_len) = curve;
     let (device_key, signer) = make_key(rng, kty, crv, len);
     let namespaces = doc_namespaces(rng, i);
+    // sub-second parts of every size, the four dates in turn: none, below a millisecond, whole milliseconds, almost a second
+    const FRACTIONS: [u32; 8] = [0, 1, 999, 1_000, 999_999, 1_000_000, 500_000_000, 999_999_999];
+    let frac = |k: usize| FRACTIONS[(i + k * 3) % FRACTIONS.len()];
     let now = time::OffsetDateTime::now_utc();
     let validity_info = ValidityInfo {
-        signed: now,
-        valid_from: now,
-        valid_until: now + time::Duration::days(30),
-        expected_update: if rng.gen_bool(0.5) { Some(now + time::Duration::days(10)) } else { None },
+        signed: now.replace_nanosecond(frac(0)).unwrap(),
+        valid_from: now.replace_nanosecond(frac(1)).unwrap(),
+        valid_until: (now + time::Duration::days(30)).replace_nanosecond(frac(2)).unwrap(),
+        expected_update: if rng.gen_bool(0.5) || i % 4 == 1 { Some((now + time::Duration::days(10)).replace_nanosecond(frac(3)).unwrap()) } else { None },
     };
+    ctx.count(&format!("validity:fractions:{}/{}/{}", frac(0), frac(1), frac(2)));
     let key_info: Option<BTreeMap<i128, Value>> =
         if rng.gen_bool(0.3) { Some([(1i128, Value::Text("info".into())), (-5i128, Value::Integer(7.into()))].into_iter().collect()) } else { None };
     let x5chain = X5Chain::builder().with_certificate(pki.ds.clone()).unwrap().build().unwrap();
